@@ -10,7 +10,10 @@ META = {
     "rule": "G1 for every ordered pair of the 23 binary operators (and both prefix operators) the grouping the Pratt loop "
             "produces, computed from infix_bp/prefix_bp as tabulated from their MIR, equals Gleam's; G2 the Pratt loop passes "
             "the right binding power of the operator it just compared; G3 every kind an expression/pattern/type dispatcher "
-            "handles is in the FIRST set that guards its call sites. Non-trivial = an operator pair or a def-use chain.",
+            "handles is in the FIRST set that guards its call sites; the postfix continuation is reached at every min_bp; G4 the "
+            "generated typed accessors of one node use each position once per target type, and no two accessors of one node "
+            "have target types that cast the same child kind (else both return the same child). Non-trivial = an operator "
+            "pair, a def-use chain or an accessor pair.",
     "explanation": "The Pratt loop touches binding powers only through `lbp < min_bp`, `lbp == min_bp` and passing rbp down, so "
                    "the grouping of `a op1 b op2 c` is decided, for all 23x23 operator pairs, by comparing numbers that engine T "
                    "reads off the MIR of infix_bp/prefix_bp. The oracle is Gleam's published precedence table (all binary "
@@ -199,8 +202,100 @@ def run(F, res, tier):
         res.ob("G3", "%s-members-handled" % setname,
                "every member of %s is handled by %s() (a member without an arm would be accepted by the guard and then not consumed)" % (setname, fnname),
                not dead, where=fn.loc(ln), how="all handled" if not dead else "in the set without an arm: %s" % sorted(dead))
+    accessor_rules(F, res, pure, kinds)
 
 
 def thorough(F, res):
     from lib import pcache as _pc
     _pc.crosscheck(F, res)
+
+
+# accessor pairs whose target types overlap but whose indices account for it (read, one reason each)
+ACCESSOR_OVERLAP_REVIEWED = {
+    ("PatternConcat", "string", "name"): "`\"a\" <> rest`: the string literal is itself a Pattern child, and `name` is declared as Pattern[1]: "
+                                         "the index counts the literal, so it selects the binder",
+}
+
+
+def accessors(F):
+    """node struct -> [(accessor, target type, index | 'all')] read from the MIR of the generated accessor methods"""
+    acc = {}
+    for p, f in F.fns.items():
+        if not p.startswith("syntax::ast::") or not f.blocks or "{closure" in p:
+            continue
+        T, idx, allc = None, None, False
+        for b, t in f.calls():
+            c = callee(t) or callee_def(t) or ""
+            targs = (t.get("fn") or {}).get("targs") or []
+            if c.endswith("support::child") and targs:
+                T, idx = targs[0], 0
+            if c.endswith("support::children") and targs:
+                T, allc = targs[0], True
+            if c.endswith("Iterator::nth") and allc:
+                k = t["args"][1].get("k") or {}
+                if "bits" in k:
+                    idx, allc = int(k["bits"]), False
+        if T:
+            node, meth = p.rsplit("::", 1)
+            acc.setdefault(node, []).append((meth, T, "all" if allc else idx))
+    return acc
+
+
+def accessor_rules(F, res, pure, kinds):
+    """G4: typed accessors pick children by (castable type, index). G4a: the single-child accessors of one node that
+    share a target type use the indices 0..n-1, each once. G4b: two accessors of one node whose target types can cast the
+    same child kind select the same child when that kind stands in the earlier slot (`let _ = g(1)`: `_` is both a
+    Pattern and an Expr, so body() returns the pattern)."""
+    acc = accessors(F)
+    res.floor("node structs with generated accessors", len(acc), 40)
+    cast = {}
+
+    def castset(T):
+        if T not in cast:
+            p = "<%s as rowan::ast::AstNode>::can_cast" % T
+            out = None
+            if p in F.fns:
+                out = set()
+                for k in kinds:
+                    try:
+                        if pure.call(p, [("e", SK, k)]) == 1:
+                            out.add(k)
+                    except Exception:  # noqa
+                        out = None
+                        break
+            cast[T] = out
+        return cast[T]
+    npairs = 0
+    for node, lst in sorted(acc.items()):
+        short_node = node.rsplit("::", 1)[-1]
+        by_t = {}
+        for m, T, s_ in lst:
+            if s_ != "all":
+                by_t.setdefault(T, []).append((s_, m))
+        for T, xs in sorted(by_t.items()):
+            if len(xs) < 2:
+                continue
+            idxs = sorted(i for i, _ in xs)
+            res.ob("G4", "indices/%s/%s" % (short_node, T.rsplit("::", 1)[-1]),
+                   "the accessors of %s that select one %s child use the positions 0..%d, each once" % (short_node, T.rsplit("::", 1)[-1], len(xs) - 1),
+                   idxs == list(range(len(xs))), where="crates/syntax/src/ast.rs", how="%s" % sorted(xs))
+        for i, (m1, T1, s1) in enumerate(lst):
+            for (m2, T2, s2) in lst[i + 1:]:
+                if T1 == T2:
+                    continue
+                c1, c2 = castset(T1), castset(T2)
+                if c1 is None or c2 is None:
+                    res.anchor_missing("G4", "can_cast of %s / %s" % (T1, T2))
+                    continue
+                ov = sorted(c1 & c2)
+                if not ov:
+                    continue
+                npairs += 1
+                a, b_ = sorted([m1, m2])
+                rv = ACCESSOR_OVERLAP_REVIEWED.get((short_node, m1, m2)) or ACCESSOR_OVERLAP_REVIEWED.get((short_node, m2, m1))
+                res.ob("G4", "overlap/%s/%s+%s" % (short_node, a, b_),
+                       "%s::%s (%s) and %s::%s (%s) never select the same child" % (short_node, m1, T1.rsplit("::", 1)[-1], short_node, m2, T2.rsplit("::", 1)[-1]),
+                       bool(rv), where="crates/syntax/src/ast.rs",
+                       how=("reviewed: " + rv) if rv else "both target types cast %s: a child of that kind in the earlier slot is returned by both accessors" % ov,
+                       reviewed=bool(rv))
+    res.analysed["accessor_pairs_with_overlapping_cast_sets"] = npairs
